@@ -123,8 +123,21 @@ func (p *parser) parseTop() (*Expr, error) {
 			return nil, fmt.Errorf("quantifier variable expected")
 		}
 		vt := "int"
-		if p.peek().kind == "id" {
+		var over *Expr
+		if p.peek().kind == "id" && p.peek().text == "in" {
+			// forall x in s :: P(x) — x ranges over the elements of slice s
+			p.next()
+			var err error
+			over, err = p.parseCond()
+			if err != nil {
+				return nil, err
+			}
+			vt = "elem"
+		} else if p.peek().kind == "id" {
 			vt = p.next().text
+		} else if p.peek().kind == "op" && p.peek().text == "*" {
+			p.next()
+			vt = "*" + p.next().text
 		}
 		if err := p.expect("::"); err != nil {
 			return nil, err
@@ -133,7 +146,11 @@ func (p *parser) parseTop() (*Expr, error) {
 		if err != nil {
 			return nil, err
 		}
-		return &Expr{Op: t.text, Var: v.text, VarType: vt, Args: []*Expr{body}}, nil
+		q := &Expr{Op: t.text, Var: v.text, VarType: vt, Args: []*Expr{body}}
+		if over != nil {
+			q.Args = append(q.Args, over)
+		}
+		return q, nil
 	}
 	return p.parseIff()
 }
